@@ -757,7 +757,8 @@ def classify_tensor(t_after, o_after, t_before, tau: float) -> str:
     return hits[0] if len(hits) == 1 else "other"
 
 
-KIND_ARGS = {"arch": dict(no_mutation=0, architecture=1, new_layer_prob=0.5, parameters=0, activation=0, rl_hp=0),
+KIND_ARGS = {"none": dict(no_mutation=1, architecture=0, new_layer_prob=0.5, parameters=0, activation=0, rl_hp=0),
+             "arch": dict(no_mutation=0, architecture=1, new_layer_prob=0.5, parameters=0, activation=0, rl_hp=0),
              "param": dict(no_mutation=0, architecture=0, new_layer_prob=0.5, parameters=1, activation=0, rl_hp=0),
              "act": dict(no_mutation=0, architecture=0, new_layer_prob=0.5, parameters=0, activation=1, rl_hp=0),
              "hp": dict(no_mutation=0, architecture=0, new_layer_prob=0.5, parameters=0, activation=0, rl_hp=1)}
@@ -930,7 +931,7 @@ def script(rng: random.Random, pf: int, length: int = 14) -> List[tuple]:
             alive.add(c)
             tgt = c
         elif seg == "mutate":
-            ops.append(("mutate", a, rng.choice(["arch", "arch", "param", "act", "hp"])))
+            ops.append(("mutate", a, rng.choice(["arch", "arch", "param", "act", "hp", "none", "none"])))
         else:
             if not saved or rng.random() < 0.5:
                 f = rng.choice([1, 2])
